@@ -238,7 +238,7 @@ func retype(v Val, t types.Type) Val {
 
 func (fc *FnCtx) execAlloc(fr *Frame, st *State, t *ssa.Alloc) Val {
 	et := t.Type().(*types.Pointer).Elem()
-	if structOf(et) != nil {
+	if _, isStruct := et.Underlying().(*types.Struct); isStruct {
 		ref := fc.newRef(st, "new_"+t.Comment)
 		if fc.freshT == nil {
 			fc.freshT = map[string]types.Type{}
